@@ -153,6 +153,25 @@ func e4deployment(own, other string, first, owner map[string]string, ps []prof, 
 			}
 		}
 	}
+	// the provider's only endpoint is out of rotation (a failed health check), the other provider's endpoint works: a request
+	// under the provider's prefix, whatever model it names, gets an error and nobody else is asked
+	for down, scope := range []string{"own", "other"} {
+		o.SetStatus(bes[down].Name, "unhealthy")
+		for _, r := range alphabet {
+			if r.scope != scope || compatible(owner[r.prefix], types[1-down], ps) {
+				continue
+			}
+			hist := fmt.Sprintf("[the %s endpoint is unhealthy] %s", types[down], r.String())
+			out := do(r, hist)
+			res.SetAdd("distinct_nontrivial", fmt.Sprintf("E4|%s|%s|down|%s|%s|%v", own, other, r.scope, r.model, out))
+			if out.status >= 200 && out.status < 300 {
+				res.Violate("success-without-compatible-endpoint", map[string]any{"part": "E4", "prefix_owner": ownClass(owner[r.prefix])},
+					fmt.Sprintf("deployment [%s, %s] engine=%s model routing %s, %s: client status %d", own, other, engine, rg.name, hist, out.status),
+					map[string]any{"engine": "stack", "part": "E4", "deployment": types, "history": hist})
+			}
+		}
+		o.SetStatus(bes[down].Name, "healthy")
+	}
 	outs := map[string]string{}
 	for r, o := range alone {
 		outs[r.scope+"|"+r.model] = fmt.Sprintf("status %d endpoint %d", o.status, o.served)
